@@ -1463,4 +1463,8 @@ func TestC16(t *testing.T) {
 	h.Run(c, "join", only("join", c.N(250, 2500)), genJoin, oracleJoin)
 	c.Rule("capacity: make(chan T, n) takes n items while nobody receives: n from 0 to 2^17+1, in the thorough tier to 2^20+1 (edge values around powers of two, sizes that do not fit into 16 bits), filled by the main goroutine, by 2..4 workers joined before the first receive, or (large n) by the host with Go's non-blocking send for all but the last 1..200 items; then close and drain; non-trivial = filled to the brim with at least 2 items")
 	h.Run(c, "capacity", only("capacity", c.N(20, 150)), genCapFor(c.Thorough()), oracleCap)
+	c.Rule("heldsend: 1..3 sender goroutines, each sending N = b+1..b+4 times the content of one slot (element of a typed slice / of a nested slice, struct field, field of a struct element, pointer target, a whole struct, a struct element, a list element; int64/float64/string/bool) on its own channel with buffer b in 0..2 (element type of the slot, interface, or the other numeric type); the main flow, in rounds, waits until a stopped-world goroutine snapshot shows every sender that still has a send pending parked in a select, stores the next value into every slot (host poke, directly / from a called function / from a helper goroutine), then receives one item per channel; send k must deliver the value the slot held when send k ran: w[0] for k <= b, w[k-b] after that; non-trivial = every case (at least one send is parked while its slot is overwritten)")
+	h.Run(c, "heldsend", only("heldsend", c.N(160, 1600)), genHeld, oracleHeld)
+	c.Rule("loopvar: a producer (goroutine, or the buffer filled and closed beforehand) sends items 1..N (N in 0..30; int64, float64, string, bool, a struct type, pointers to it, int64 on chan interface; buffer 0..3) through 0..2 stage goroutines to a consumer (top level / called function / goroutine), every one of them a for-in over its input channel whose body changes the loop variable in place (0..3 of: v = v * 3, v += 7, v++, v--, v = -v, v = v, an assignment inside a nested block, v = f(v), s += \"!\", b = !b) and hands it on at once, or one round late after keeping it under another name (bound directly or through a function parameter), or (consumer) remembers the first item until the end; the recorded sequence must be the sent items with every loop's operations applied once each; GOMAXPROCS two of 1,2,16 x 1..2; non-trivial = N >= 2 and some loop assigns its variable or keeps an item")
+	h.Run(c, "loopvar", only("loopvar", c.N(220, 2200)), genLV, oracleLV)
 }
